@@ -146,3 +146,13 @@ def streamed_response_runs_on_while_draining():
     arrives well inside the drain timeout must reach the client complete"""
     return {"steps": [dep("c1", [b"ta:80"]), req("r1", "stream:%d" % (2 * SEC)), req("r2", "stream:%d" % (SEC // 2)),
                       {"op": "sleep", "ns": SEC // 10}, dep("c2", [b"tb:80"], asyn=True, drain=5 * SEC), {"op": "sleep", "ns": 6 * SEC}]}
+
+
+def stop_without_message_fails_the_held_requests():
+    """requests held by a pause, then `stop` with the EMPTY (default) message: the held requests are answered 503, none
+    reaches the targets the stop drains"""
+    return {"steps": [dep("c1", [b"ta:80"]),
+                      {"op": "pause", "id": "c2", "name": H(b"web"), "fail_after": 20 * SEC, "drain_timeout": SEC}, {"op": "sleep", "ns": SEC // 10},
+                      req("r1"), req("r2"), req("r3"), {"op": "sleep", "ns": SEC},
+                      {"op": "stop", "id": "c3", "name": H(b"web"), "msg": H(b""), "drain_timeout": SEC}, {"op": "sleep", "ns": SEC},
+                      req("r4"), {"op": "sleep", "ns": SEC}, {"op": "resume", "id": "c4", "name": H(b"web")}, req("r5"), {"op": "sleep", "ns": SEC}]}
